@@ -246,8 +246,7 @@ static void mpi_scenario(report& r, int mode, int world, bool preexisting)
     std::vector<std::string> golden;
     {
         vf::mpi_env e1(world);
-        golden.push_back(text_of(kit<T, K>::fresh()));
-        for (sz n = 1; n <= g_calls.size(); ++n)
+        for (sz n = 0; n <= g_calls.size(); ++n)     // (n = 0: a run without iterations; a fresh VEGAS checkpoint has no dimension yet and cannot be written)
         {
             std::string t;
             std::vector<sz> const part(g_calls.begin(), g_calls.begin() + n);
@@ -575,7 +574,7 @@ static void for_type(report& r)
     for (int world = 2; world <= 3; ++world)
     {
         mpi_scenario<T, 0>(r, mode, world, pre != 0);
-        if (world == 2) mpi_scenario<T, 2>(r, mode, world, pre != 0);
+        if (world == 2) { mpi_scenario<T, 2>(r, mode, world, pre != 0); mpi_scenario<T, 1>(r, mode, world, pre != 0); }
     }
 }
 
